@@ -394,7 +394,7 @@ def check(ctx):
     pr = vf.proof_step(ctx, "Properties_C11")
     rng = ctx.rng
     thorough = ctx.thorough()
-    reqs = gen_requests(rng, 6000 if thorough else 1100, thorough)
+    reqs = gen_requests(rng, 25000 if thorough else 1100, thorough)
     for r, cod in zip(reqs, expected_codings(ctx, reqs)):
         add_body(rng, r, cod)
     # every request once with a random delivery; the trigger classes additionally whole + random cuts + byte-by-byte
@@ -462,7 +462,7 @@ def check(ctx):
             "colon, LF or CRLF, obs-folded values of other fields, a body that fits the predicted framing; delivered whole, with random cuts and "
             "byte-by-byte; 5 personalities. Correspondence extracted model vs library (ASan+UBSan); then the extracted fr_check / fr_check_table / "
             "fr_check_host on the LIBRARY's dump of every case, fr_check_text / fr_check_host_text inside their premises. distinct_nontrivial = "
-            "distinct (trigger class, expected verdict, domain bits)." % (len(cases), len(reqs), 6000 if thorough else 1100))
+            "distinct (trigger class, expected verdict, domain bits)." % (len(cases), len(reqs), 25000 if thorough else 1100))
     return vf.standard_epilogue(ctx, pr, "make Props/Properties_C11.vo (coqc 8.16.1) + ./check C11", rule,
                                 ["C11_framing, C11_table_view, C11_host_flags, C11_validate_hostname, C11_has_token_spec are total (every protocol "
                                  "number, every list of header lines; the repetition cap is inside the statement via fr_kept)",
